@@ -121,17 +121,13 @@ let whitebox (s : sc) =
   let close_pending = ref false and closed_seen = ref false in
   let do_close () = if !close_pending then (close_pending := false; apply "exactly_once" Close) in
   let batches = Hashtbl.create 16 in
-  let lostcas = Hashtbl.create 4 in
   let must_empty = Hashtbl.create 16 in
   let id_of_caller = Hashtbl.create 64 in
   List.iter (fun (i, c) -> if not (Hashtbl.mem id_of_caller c) then Hashtbl.replace id_of_caller c i) allpairs;
   (* pending h = number of Recv failures of stream h whose recreateStreamingClient has not been replayed yet *)
   let npending h = try Hashtbl.find pending h with Not_found -> 0 in
   let flush_fail h = if npending h > 0 then begin
-      Hashtbl.replace pending h (npending h - 1); apply "fail_pending" (StreamFail (nat h));
-      (* observation outside the property: the loop lost the epoch CAS, its pending entries stay in flight *)
-      if not (closed !st) && not (no_pending_of (nat h) !st) then begin
-        Hashtbl.replace lostcas h true; bump "obs:stale_epoch_recreate_keeps_pending" 1 end
+      Hashtbl.replace pending h (npending h - 1); apply "fail_pending" (StreamFail (nat h))
     end in
   let model_ids_of_host h =
     List.sort compare (List.filter_map (fun (i, c) -> if int_of_nat (e_host (ent !st c)) = h then Some (int_of_nat i) else None) (tab !st)) in
@@ -185,16 +181,6 @@ let whitebox (s : sc) =
         end
     | "CLOSE" :: _ -> close_pending := true; closed_seen := true
     | "INJ" :: "sendpanic" :: _ -> apply "ids_fresh" Restart
-    | "HANG" :: c :: _ ->
-        (* a call did not complete. If the faithful model agrees -- the entry is still in flight without any completion
-           after its stream was re-created by a loop that lost the epoch CAS -- this is the documented stale-epoch
-           behaviour of the code as it is (finding class), not a divergence from the model *)
-        let c = ios c in
-        let e = entry c in
-        (match e_st e, e_comp e, e_ret e with
-         | Stored _, [], None when Hashtbl.mem lostcas (int_of_nat (e_host e)) ->
-             Printf.printf "FINDING\t%s\tstale-epoch-recreate-skips-fail-pending\t%d\n" s.id c
-         | _ -> ())
     | "RET" :: c :: kind :: p :: _ ->
         let c = ios c in
         let abort k =
